@@ -237,6 +237,16 @@ func (e shapeEnv) gen(class string) []byte {
 		l := e.freshServers(1+rng.Intn(3), g2, 0)
 		l[0].Banned = false
 		l[0] = l[0].Signed(g2.Priv)
+		if rng.Intn(2) == 0 {
+			// the order lists one key twice: the authorization first, its ban record later, then a usable server
+			k := e.freshServers(1, g2, 0)[0]
+			k.Banned = false
+			k = k.Signed(g2.Priv)
+			kb := k
+			kb.Banned = true
+			kb = kb.Signed(g2.Priv)
+			l = append([]refenc.AuthServer{k, kb}, l...)
+		}
 		id := rng.Uint32()
 		p := e.fixed(e.dev.Pub, g2.Pub, id)
 		p = append(p, serversBytes(l)...)
